@@ -18,7 +18,8 @@ EXPLANATION = (
     "influence ordering (ty_dependency edges) can only move statements that produce no code: type declarations lower to "
     "nothing; (NO-ALLOCATION) resolving a type allocates no variable (Resolver::ty / type_vec / ty_assignable / "
     "namespace_type_list take &self and call neither new_var nor push_var) and variable ids are the allocation index, so "
-    "numbering is the same with and without annotations; (SAME-NODE) the parser produces the same statement kind with and "
+    "numbering is the same with and without annotations; (ANNOTATION-INERT) inside name resolution an annotation is only "
+    "ever handed to the type-resolving functions, never inspected, so scoping and declaration order cannot depend on it; (SAME-NODE) the parser produces the same statement kind with and "
     "without an annotation (only the `ty` field differs) and the same binder kind for `::`/`: T :` and `:=`/`: T =`."
 )
 UNDECIDED = "the acceptance clause: that erasing a correct annotation keeps the program accepted is a completeness property of inference."
@@ -37,6 +38,7 @@ def run(F, rep, tier):
     no_type_flow(F, rep)
     inert_order(F, rep)
     no_allocation(F, rep)
+    annotation_inert_in_resolver(F, rep)
     same_node(F, rep)
 
 
@@ -154,6 +156,45 @@ def no_allocation(F, rep):
     fn = F.fn("sylt_compiler::intermediate::IRCodeGen::new")
     rep.ob("NO-ALLOCATION", "IRCodeGen::new|counter", "typechecker.variables.len() Add 1" in pp(fn_body(fn)),
            "temporaries are numbered from variables.len() + 1", fn["sp"])
+
+
+def annotation_inert_in_resolver(F, rep):
+    """name resolution decides scoping, declaration order and variable numbering: a parsed type annotation may only be
+    handed to the type-resolving functions (ty / type_vec / ty_assignable), never inspected - otherwise adding or
+    removing an annotation can change which ids variables get and therefore the emitted text"""
+    type_fns = {R + m for m in ("ty", "type_vec", "ty_assignable", "namespace_type_list")}
+    n = 0
+    for fn in F.fns_in(R):
+        if fn["_path"] in type_fns:
+            continue
+        body = fn_body(fn)
+        fl = Flow(fn, body)
+        for hid, o in fl.origin.items():
+            b = o["binding"]
+            t = b.get("ty", "").replace("&", "").strip()
+            if not (t == "sylt_parser::Type" or t.endswith("<sylt_parser::Type>") or "sylt_parser::Type," in t or ", sylt_parser::Type)" in t):
+                continue
+            if "alloc::vec::Vec<(" in t or "HashMap" in t or "BTreeMap" in t:
+                continue  # containers are destructured into element bindings, which are checked themselves
+            n += 1
+            uses = []
+            for x, parents in walk(body):
+                if x.get("k") == "Path" and x.get("hid") == hid:
+                    ok = False
+                    for p in reversed(parents):
+                        if p.get("k") in ("MethodCall", "Call") and callee(p) in type_fns:
+                            ok = True
+                            break
+                        if p.get("k") in ("If", "Match", "Block", "Closure", "Let"):
+                            break
+                    uses.append((ok, line_of(x)))
+            bad = [u for u in uses if not u[0]]
+            rep.ob("ANNOTATION-INERT", "%s|%s" % (last(fn["_path"], 2), b["name"]), not bad,
+                   "the annotation `%s` in %s is %s" % (b["name"], last(fn["_path"], 2),
+                                                       "only passed to the type-resolving functions (%d uses)" % len(uses) if not bad else
+                                                       "inspected by name resolution itself at %s: scoping / declaration order / variable numbering "
+                                                       "now depend on the annotation" % [u[1] for u in bad]), fn["sp"])
+    rep.floor("ANNOTATION-INERT", "annotation bindings in the resolver", n, 4)
 
 
 def same_node(F, rep):
